@@ -442,6 +442,35 @@ def classify(site: dict, gmod, answer: str, rep: dict) -> tuple[str | None, list
     return None, tried
 
 
+def stale_early_resolution(collection, loaded_gmod, files: dict, f: dict, r: dict) -> bool:  # noqa: ANN001
+    """C04-early-resolution-stale-target (same root cause as C05-early-resolution-stale-target): the scope member the
+    bare name resolves through is an alias that was resolved during loading and Griffe answers its cached target path,
+    which is stale in one of two ways: (a) under the cached chain a member that was itself an alias has been replaced
+    since (a wildcard import expanded later re-bound the imported name), or (b) the alias was re-targeted by set_member
+    straight to a replaced member's successor, so its target path is no longer the one its import statement names and
+    the intermediate module's later re-binding is bypassed.  In both forms, following the chain by *path* through the
+    collection (for (b): from the path the import statement names) ends at the object CPython binds.  Judged on the
+    loaded tree (a JSON dump only serialises the stale target path)."""
+    from vf.checks.c05 import first_replaced_hop, relookup_by_path, retargeted_past_replaced_alias
+
+    root = f["expr"]
+    scopes = [loaded_gmod]
+    for c in f["classes"]:
+        scopes.append(scopes[-1].members[c])
+    depth = next((i for i in range(len(scopes) - 1, -1, -1) if root in scopes[i].members), None)
+    if depth is None:
+        return False
+    member = scopes[depth].members[root]
+    if not member.is_alias or not member.resolved or f["griffe"] != member.target_path:
+        return False
+    hop = first_replaced_hop(collection, member)
+    fresh = relookup_by_path(collection, member)
+    if hop is not None and hop.is_alias and fresh is not None and r["cpy"].get("id") == fresh.path:
+        return True
+    again = retargeted_past_replaced_alias(collection, files, f["module"], root, member, tuple(f["classes"][:depth]))
+    return again is not None and r["cpy"].get("id") == again.path
+
+
 def count_input_classes(rec, f: dict, r: dict, structural: set) -> None:  # noqa: ANN001
     """Evidence for the classes of identifiers spelled like a scope around the site (module, package, class)."""
     root = f["expr"].split(".")[0]
@@ -600,6 +629,10 @@ def run_case(rec, files: dict, sites: dict[str, list[dict]], top: str, nontrivia
                         tried = [*tried, "C04-init-from-dot-import-not-recorded"]
                         if r["cpy"]["id"] in from_dot_imported_submodules(files):
                             fid = "C04-init-from-dot-import-not-recorded"
+                    if fid is None and "." not in f["expr"]:
+                        tried = [*tried, "C04-early-resolution-stale-target"]
+                        if stale_early_resolution(loader.modules_collection, gmods[("loaded", f["module"])], files, f, r):
+                            fid = "C04-early-resolution-stale-target"
                     if fid is None and "." in f["expr"] and f["griffe"].split(".")[0] == f["expr"].split(".")[0]:
                         # a chain whose root was left unresolved: the root site (judged separately) carries the verdict
                         continue
